@@ -3,6 +3,8 @@
 package engines
 
 import (
+	"fmt"
+
 	"verif/harness/internal/core"
 )
 
@@ -37,6 +39,23 @@ func init() {
 				}
 				res.Outcome("nsx-foreign ok")
 			}
+			// the hand-written raw file names a policy without the Netspoc
+			// prefix; the manager holds an unmanaged policy of that id (never
+			// read by the tool): it must not be overwritten - either the raw
+			// file is rejected or the policy stays as it is
+			sc := baseScenario("NSX", front)
+			sc.name += "/raw-policy-with-foreign-id"
+			sc.nsxExtra = true
+			sc.target.Raw = `{"policies":[{"id":"manual-policy","resource_type":"GatewayPolicy","rules":[{"id":"raw1","action":"ALLOW","sequence_number":7,` +
+				`"source_groups":["ANY"],"destination_groups":["ANY"],"services":["ANY"],"scope":["/infra/tier-0s/v1"],"direction":"OUT"}]}]}`
+			r := runDialogue(x.scr, sc, runOpts{})
+			res.Evaluations++
+			res.Nontrivial++
+			c := &dcase{sc: sc, dev: map[int]string{}, desc: "nsx-raw-foreign-id"}
+			if r.foreignBefore != r.foreignAfter {
+				x.violation(c, r, "frame", "frame:nsx-foreign-policy-overwritten-from-raw", "a policy without the Netspoc prefix was overwritten from the raw file:\n"+r.foreignAfter+"\n--- before\n"+r.foreignBefore)
+			}
+			res.Outcome(fmt.Sprintf("nsx-raw-foreign-id exit=%d", r.exit))
 		}
 	}
 }
